@@ -1,0 +1,48 @@
+//! Verification hooks (compiled only with `--cfg rumqtt_verif`): re-exports of crate-private
+//! items so that an external harness can drive the real code in-process, and a thread-local
+//! log in which the router records the nondeterministic choices it actually made (hash-map
+//! iteration orders that are observable, random draws). Add-only; nothing here is used by
+//! the crate itself except `record_choice`.
+use std::cell::RefCell;
+use std::collections::VecDeque;
+use std::sync::Arc;
+
+use parking_lot::Mutex;
+
+pub use crate::link::network::{Network, N};
+pub use crate::link::remote::{mqtt_connect, RemoteLink};
+pub use crate::router::iobufs::{Incoming, Outgoing};
+pub use crate::router::scheduler::{PauseReason, ScheduleReason, Status, Tracker};
+pub use crate::router::{Ack, Connection, Event, ShadowRequest};
+pub use crate::segments::{CommitLog, Position, Storage};
+
+thread_local! {
+    static CHOICES: RefCell<Vec<String>> = const { RefCell::new(Vec::new()) };
+}
+
+pub fn record_choice(kind: &str, detail: String) {
+    CHOICES.with(|c| c.borrow_mut().push(format!("{kind} {detail}")));
+}
+
+pub fn take_choices() -> Vec<String> {
+    CHOICES.with(|c| std::mem::take(&mut *c.borrow_mut()))
+}
+
+/// The link-side ends of a connection's two shared buffers and its wake-up channel.
+pub struct LinkEnds {
+    pub incoming: Arc<Mutex<VecDeque<crate::protocol::Packet>>>,
+    pub outgoing: Arc<Mutex<VecDeque<crate::Notification>>>,
+    pub wake: flume::Receiver<()>,
+}
+
+/// Build the `Incoming`/`Outgoing` pair of an `Event::Connect` exactly as `LinkBuilder::build` does.
+pub fn new_buffers(client_id: &str) -> (Incoming, Outgoing, LinkEnds) {
+    let incoming = Incoming::new(client_id.to_owned());
+    let (outgoing, wake) = Outgoing::new(client_id.to_owned());
+    let ends = LinkEnds {
+        incoming: incoming.buffer(),
+        outgoing: outgoing.buffer(),
+        wake,
+    };
+    (incoming, outgoing, ends)
+}
